@@ -42,6 +42,16 @@ def check_case(ctx, L, case):
         n += 1
         if not report(ctx, ID, L, case.type, data, case.cc, case.enc, ref, obs, extra=f"{case.tokens[i][0]} {case.tokens[i][2]} -> {nv} ({label})"):
             return
+    # sizes that stay consistent with each other while a region holds bytes no field accounts for
+    for data, label in faults.consistent_insertions(L, case, ref0):
+        ref, obs = strict_pair(L, case.type, data, case.cc, case.enc)
+        kinds = ref.kinds
+        ctx.case((case.type, case.cc, case.enc, data), kinds != ["ok"], sample={"type": case.type, "fault": label, "model": kinds, "hex": data.hex()[:160]} if kinds != ["ok"] else None)
+        ctx.count("fault:consistent-insertion")
+        for k in kinds:
+            ctx.count(f"model:{k}")
+        if not report(ctx, ID, L, case.type, data, case.cc, case.enc, ref, obs, extra=label):
+            return
     ctx.count("messages")
     if n == 0:
         ctx.count("messages_without_size_field")
